@@ -15,11 +15,17 @@ theorem.  Proved in general:
   * `C30_block_partial` — `clean_block_string_literal` = BlockStringValue() on every raw text
     without a lone CR and without `\"""` (witnesses show both exclusions are necessary);
   * `C30_total` — no `expect`/`assert!` of the parser is reachable, on any token list;
-  * `C30_type`, `C30_value_partial` — `parse_type_annotation` / `parse_constant_value` (with the
-    alternatives committed) read exactly the Type / constant Value of the reference grammar with the
-    compiler's deviation switches, on every token list and for every fuel;
-  * the rest of `C30_accept` / `C30_tree` (definitions, documents) is tied differentially: the
-    check evaluates hand model, reference-with-switches and reference on every generated document.
+  * `C30_type`, `C30_value_partial`, `C30_description`, `C30_directives_partial`,
+    `C30_inputvalue_partial`, `C30_fields_partial` — `parse_type_annotation`, `parse_constant_value`
+    (with the alternatives committed), `parse_optional_description`, `parse_constant_directives`,
+    `parse_argument_definition`, `parse_optional_fields` read exactly the Type, constant Value,
+    Description, Directives, InputValueDefinition and FieldsDefinition of the reference grammar
+    with the compiler's deviation switches — same acceptance, same tree, same rest — on every
+    token list and for every fuel;
+  * the rest of `C30_accept` / `C30_tree` (the definition keywords, implements/union/enum/schema/
+    directive definitions, the document loop and the supported-subset filter) is tied
+    differentially: the check evaluates hand model, reference-with-switches and reference on every
+    generated document.
 -/
 import IsoVerif.Lemmas.GqlBlock
 import IsoVerif.Lemmas.GqlSchemaParse
@@ -74,14 +80,34 @@ theorem C30_value_partial (f : Nat) (ts : List Tok) :
     (parseConstantValue false false f ts).toOpt = pValue Quirks.iso true f ts :=
   (value_eq f).1 ts
 
-/-- with the alternatives *not* committed (the code as it is) the two differ: -/
+/-- descriptions: quoted strings verbatim, block strings through `clean_block_string_literal` -/
+theorem C30_description (ts : List Tok) : parseOptionalDescription ts = pDesc Quirks.iso ts := desc_eq ts
+
+/-- directives with their constant arguments -/
+theorem C30_directives_partial (f : Nat) (ts : List Tok) :
+    (parseConstantDirectives false f ts).toOpt = pDirs Quirks.iso true f ts := dirs_eq f ts
+
+/-- argument / input-field definitions: description, name, type annotation, default value, directives -/
+theorem C30_inputvalue_partial (f : Nat) (ts : List Tok) :
+    (parseArgumentDefinition false f ts).toOpt = pInputVal Quirks.iso f ts := inputVal_eq f ts
+
+/-- `C30_accept` and `C30_tree` for a braced list of field definitions (each with description,
+argument definitions, type annotation, directives): same acceptance, same tree, same rest -/
+theorem C30_fields_partial (f : Nat) (ts : List Tok) :
+    (parseOptionalFields false f ts).toOpt = pFieldDefsOpt Quirks.iso f ts := optionalFields_eq f ts
+
+def isAccept : Outcome → Bool
+  | .accept _ => true
+  | _ => false
+
+/-- with the alternatives *not* committed (the code as it is) the two differ: the parser accepts
+`a: <integer outside i64> true` (reading `true`) and `a: [{{b:1}` (reading `{b:1}`) -/
 theorem C30_witness_value_alternative_resumes :
-    isoSchema false (cps "scalar S @d(a:9223372036854775808 true)") ≠
-      specSchema false (cps "scalar S @d(a:9223372036854775808 true)") ∧
-    (∃ t, isoSchema false (cps "scalar S @d(a:[{{b:1})") = .accept t) ∧
+    isAccept (isoSchema false (cps "scalar S @d(a:9223372036854775808 true)")) = true ∧
+    specSchema false (cps "scalar S @d(a:9223372036854775808 true)") = .reject ∧
+    isAccept (isoSchema false (cps "scalar S @d(a:[{{b:1})")) = true ∧
     specSchema false (cps "scalar S @d(a:[{{b:1})") = .reject := by
-  refine ⟨by decide +kernel, ?_, by decide +kernel⟩
-  exact ⟨_, by decide +kernel⟩
+  decide +kernel
 
 /-! ### witnesses of the other known findings -/
 
@@ -93,9 +119,13 @@ theorem C30_witness_escaped_triple_quote_doc : ¬ C30_at false (cps "\"\"\"a\\\"
   unfold C30_at; decide +kernel
 theorem C30_witness_block_string_constant : ¬ C30_at false (cps "scalar S @d(a:\"\"\"x\"\"\")") := by
   unfold C30_at; decide +kernel
-theorem C30_witness_directive_definition_missing_at : ¬ C30_at false (cps "directive d on FIELD") := by
+/-- repaired in /repo (dfabac6, a28cef5): the `@` of a directive definition is required, `SCHEMA`
+is a directive location — the former witnesses now agree with the reference -/
+theorem C30_fixed_directive_definition_missing_at :
+    C30_at false (cps "directive d on FIELD") ∧ specSchema false (cps "directive d on FIELD") = .reject := by
   unfold C30_at; decide +kernel
-theorem C30_witness_directive_location_schema : ¬ C30_at false (cps "directive @d on SCHEMA") := by
+theorem C30_fixed_directive_location_schema :
+    C30_at false (cps "directive @d on SCHEMA") ∧ isAccept (specSchema false (cps "directive @d on SCHEMA")) = true := by
   unfold C30_at; decide +kernel
 theorem C30_witness_union_without_members : ¬ C30_at false (cps "union U") := by
   unfold C30_at; decide +kernel
